@@ -295,3 +295,58 @@ func c18SameParams(c *Ctx, srv *server, rounds int) {
 		}
 	}
 }
+
+// c18AfterHostile: every well-formed request of a seeded batch is sent directly after a request to the same endpoint
+// that is NOT well-formed - two JSON documents back to back (both well-formed requests of that endpoint with other
+// values), a document followed by text, a truncated document, a document of the wrong JSON type, an empty body, a
+// field of the wrong type, the document behind a byte-order mark - whose answer is not judged here (C19 does that). The
+// well-formed request is judged by the C18 oracle: nothing a refused or half-read request leaves behind (a pooled
+// decoder's buffered bytes, fields of a pooled request struct, a remembered error) may reach the next answer.
+func c18AfterHostile(c *Ctx, srv *server, cases []restCase) {
+	r := c.R
+	rng := c.RNG.Fork(1873)
+	byEP := map[string][]restCase{}
+	for _, k := range cases {
+		if k.Method == "POST" && k.F != nil && k.RawBody == "" && k.RawPath == "" {
+			byEP[k.EP] = append(byEP[k.EP], k)
+		}
+	}
+	for _, k := range cases {
+		grp := byEP[k.EP]
+		if k.Method != "POST" || k.F == nil || k.RawBody != "" || k.RawPath != "" || len(grp) < 3 {
+			continue
+		}
+		o1, o2 := jsonBody(grp[rng.Intn(len(grp))].F), jsonBody(grp[rng.Intn(len(grp))].F)
+		var pred []byte
+		kind := rng.Intn(9)
+		switch kind {
+		case 0:
+			pred = append(append([]byte{}, o1...), o2...)
+		case 1:
+			pred = append(append(append([]byte{}, o1...), '\n'), o2...)
+		case 2:
+			pred = append(append([]byte{}, o1...), []byte(" trailing text")...)
+		case 3:
+			pred = o1[:len(o1)/2]
+		case 4:
+			pred = append(append([]byte("["), o1...), ']')
+		case 5:
+			pred = nil
+		case 6:
+			pred = []byte(strings.Replace(string(o1), `"secret":"`, `"secret":["`, 1))
+		case 7:
+			pred = append([]byte("\xef\xbb\xbf"), o1...)
+		default:
+			pred = append(append(append([]byte{}, o1...), o2...), o1[:len(o1)/3]...)
+		}
+		res := srv.do("POST", "/"+k.EP, pred, false, 30*time.Second)
+		if res.Err == nil {
+			r.Count(fmt.Sprintf("not_well_formed_predecessors_answered_status_%dxx", res.Status/100), 1)
+		} else {
+			r.Count("not_well_formed_predecessors_unanswered", 1)
+		}
+		k.Note = strings.TrimSpace(k.Note + fmt.Sprintf(" (directly after a not-well-formed request of kind %d to the same endpoint)", kind))
+		judgeREST(c, srv, k)
+		r.Count("well_formed_requests_after_a_not_well_formed_one", 1)
+	}
+}
